@@ -105,6 +105,33 @@ def apply_op(run, op):
         o = run.new_rx(op[1])
         n.add_reaction(o)
         return ["add", run.wire_rx(o)]
+    if kind == "addfile":
+        # the same additions through a reaction file in the native format (objects are created by the reader)
+        tmpl = [run.new_rx(k) for k in op[1]]
+        for o in tmpl:                      # templates only format the lines: forget their tags
+            del run.tags[id(o)]
+        del run.objs[-len(tmpl):]
+        del run.pool_of[-len(tmpl):]
+        d = Path(ol.scratch_dir()) / f"add{len(run.objs)}.naunet"
+        d.write_text("".join(f"{o:naunet}\n" for o in tmpl))
+        known = {id(r) for r in n.reaction_list} | {id(r) for r in n._skipped_reactions}
+        n.add_reaction_from_file(str(d), "naunet")
+        held = [r for r in n.reaction_list if id(r) not in known]
+        parked = [r for r in n._skipped_reactions if id(r) not in known]
+        shape = lambda o: (sorted(x.name for x in o.reactants), sorted(x.name for x in o.products), int(o.reaction_type))
+        ws = []
+        for k, t in zip(op[1], tmpl):
+            src = held if held and shape(held[0]) == shape(t) else parked if parked and shape(parked[0]) == shape(t) else None
+            if src is None:
+                raise RuntimeError(f"reaction {POOL[k]} of the file is neither held nor parked after add_reaction_from_file")
+            o = src.pop(0)
+            run.tags[id(o)] = len(run.objs)
+            run.objs.append(o)
+            run.pool_of.append(k)
+            ws.append(["add", run.wire_rx(o)])
+        if held or parked:
+            raise RuntimeError("add_reaction_from_file added reactions that are not in the file")
+        return ["multi", ws]
     if kind == "rmidx":
         if not (0 <= op[1] < len(n.reaction_list)):
             return None
@@ -179,6 +206,8 @@ def check_history(res, model, ids, allowed, required, ops, tag):
         obs = run.observe()
         if op[0] == "add":
             live = before | {len(run.objs) - 1}
+        elif op[0] == "addfile":
+            live = before | set(range(len(run.objs) - len(op[1]), len(run.objs)))
         else:
             live = before
         bad = invariant_oracle(run, obs, live)
@@ -198,14 +227,22 @@ def check_history(res, model, ids, allowed, required, ops, tag):
         if bad:
             res.violation("oracle", f"after step {step} ({op}): {bad}", case)
             return
-        wire.append(w)
-        observed.append(obs)
+        if w[0] == "multi":
+            # one model step per reaction of the file; the implementation is observed after the whole file
+            if w[1]:
+                wire.extend(w[1])
+                observed.extend([None] * (len(w[1]) - 1) + [obs])
+        else:
+            wire.append(w)
+            observed.append(obs)
     if model is not None and wire:
         rep = model.call("net.run", sorted({ids[x] for x in allowed}), sorted({ids[x] for x in required}), wire)
         if rep and rep[0] == "error":
             res.violation("correspondence", f"model rejected the history: {rep}", case)
             return
         for k, (m, o) in enumerate(zip(rep, observed)):
+            if o is None:
+                continue
             mo = {"rl": [(int(t), int(i)) for t, i in m[0]], "skipped": [int(t) for t in m[1]],
                   "reactants": [int(x) for x in m[2]], "products": [int(x) for x in m[3]],
                   "sources": [int(x) for x in m[4]], "sinks": [int(x) for x in m[5]], "species": [int(x) for x in m[6]]}
@@ -214,12 +251,14 @@ def check_history(res, model, ids, allowed, required, ops, tag):
                 res.corr_disagreements += 1
                 res.violation("correspondence", f"after operation {k} ({wire[k][0]}): model vs implementation differ in {diff}", case)
                 return
+    if any(o[0] == "addfile" for o in ops):
+        ol.cleanup_scratch()
     res.case(("c14", tag, repr(allowed), repr(required), repr(ops)),
              sample={"allowed": allowed, "ops": [list(o) for o in ops][:6], "final": observed[-1] if observed else None},
              nontrivial=len(wire) >= 2)
 
 
-OPS_SMALL = ([("add", k) for k in (0, 1, 2, 3, 4, 7)] + [("rmidx", 0), ("rmidxs", (0, 1)), ("rminst", 1), ("rminst", 3), ("rminsts", (0, 3)),
+OPS_SMALL = ([("add", k) for k in (0, 1, 2, 3, 4, 7)] + [("addfile", (1, 6)), ("rmidx", 0), ("rmidxs", (0, 1)), ("rminst", 1), ("rminst", 3), ("rminsts", (0, 3)),
              ("allowed", tuple(ALLOWED[1])), ("allowed", tuple(ALLOWED[2])), ("allowed", ()), ("required", ("CO",)), ("rmdups",), ("reindex",)])
 
 
@@ -227,8 +266,10 @@ def gen_random(rng, n):
     ops = []
     for _ in range(n):
         r = rng.random()
-        if r < 0.45:
+        if r < 0.38:
             ops.append(("add", rng.randrange(len(POOL))))
+        elif r < 0.45:
+            ops.append(("addfile", tuple(rng.randrange(len(POOL)) for _ in range(rng.randint(1, 3)))))
         elif r < 0.55:
             ops.append(("rmidx", rng.randrange(6)))
         elif r < 0.62:
@@ -303,8 +344,8 @@ def run(res, info):
     model = fw.Model() if info["ok"] else None
     ids = ident_map()
     res.rule = ("edit histories over a 9-reaction pool (equal-but-distinct instances, two electron spellings, windows) and 6 species: "
-                "exhaustive over a 17-operation alphabet up to length 3 (thorough: 4), random histories up to length 40 (thorough: 80) "
-                "with all nine operation kinds, several initial allowed/required lists; `naunet extend` variants; "
+                "exhaustive over an 18-operation alphabet up to length 3 (thorough: 4), random histories up to length 40 (thorough: 80) "
+                "with all ten operation kinds (additions also through add_reaction_from_file), several initial allowed/required lists; `naunet extend` variants; "
                 "non-trivial = at least two effective operations")
     res.assumptions = ["remove_reaction(int) is called with 0 <= i < len (other integers raise or wrap in Python and are skipped)",
                        "append-depletion/desorption of `extend` are exercised through the command line only"]
